@@ -234,14 +234,17 @@ def large_case(i):
     """(n, edges, types, exclude): structures beyond the small bound"""
     K = [k for k in REF.K if k != 'Du' and k[0:2].replace('_', '') in ATOMIC_MASSES]
     if i == 0:
-        # 320 disconnected 4-atom chains a-C_3-C_3-d / a-C_1-C_3-d with all-different end-type pairs: > 257 dihedral types,
+        # 400 disconnected 4-atom chains a-C_3-C_3-d / a-C_1-C_3-d with all-different end-type pairs: > 257 dihedral types,
         # undefined (sp centre) torsion types first seen early, in the middle and at the very end
         edges = []; types = []
-        for c in range(320):
+        L = len(K)
+        for c in range(400):
             b = 4 * c; edges += [(b, b + 1), (b + 1, b + 2), (b + 2, b + 3)]
-            centre = 'C_1' if c in (100, 281, 305, 319) else 'C_3'
-            types += [K[c % len(K)], centre, 'C_3', K[(7 * c + 3) % len(K)]]
-        return 4 * 320, edges, types, None
+            centre = 'C_1' if c in (50, 300, 340, 399) else 'C_3'
+            types += [K[c % L], centre, 'C_3', K[(7 * c + 3 + 11 * (c // L)) % L]]
+        seqs = {min(t, t[::-1]) for t in (tuple(types[4 * c:4 * c + 4]) for c in range(400))}
+        assert len(seqs) > 380, len(seqs)
+        return 4 * 400, edges, types, None
     if i == 1:
         # one C_3 six-ring plus 160 diatomic fragments; a large, sparse exclusion set that touches no ring atom
         edges = [(j, (j + 1) % 6) for j in range(6)] + [(6 + 2 * j, 7 + 2 * j) for j in range(160)]
